@@ -64,6 +64,20 @@ check('C20', 'fault_enumeration',
       'deterministic simulation with fault injection: fork-per-lifetime, SimFS crash/tear injection, idle corruption, reference model, ddmin replay',
       'DESIGN.md 5.1')
 
+check('C17', 'exploration',
+      'One simulated interpreter lifetime processes a seeded history of jobs A1..Ak;B (k<=4; each job the real '
+      'plasTeX.client.main path into its own output directory, clock jumping between jobs, sources possibly cut at '
+      'a seeded offset). Every job of the history is compared with the same job processed alone in a fresh lifetime '
+      '(forked pristine parent, or exec\'d interpreter under another PYTHONHASHSEED) at the same simulated instant: '
+      'toXML and every written file must agree up to generated identifiers (V1); after every completed job the '
+      'tracked interpreter-wide parsing state must equal its pristine value in the categories the statement names (V2).',
+      'Trusted: the block catalogue of the document generator and the curated attribute-name list that decides which '
+      'class attributes count as parsing state (switches, trackers, register values, class-level macro settings); other '
+      'drifts are reported as probes (untracked_drift) and only V1 can see their effect. Jobs that raise are outside '
+      'the premise and cut the history. Sampling of histories, not proof.',
+      'deterministic simulation: job histories inside one forked interpreter lifetime vs fresh-lifetime reference; EOF-cut faults, simulated clock jumps, hash-seed variation',
+      'DESIGN.md 5.2')
+
 NA = [
  ('C01', 'pure function of (text, catcode table): no schedule, clock, fault or history in the statement; would need a second lexer as oracle (differential testing, another family)'),
  ('C02', 'pure function of the macro program; oracle would be an independent TeX expander (differential testing)'),
